@@ -278,6 +278,16 @@ def check(sim, case, st):
                         % (cmd, p, [x for x in removed if not inside(x)][:5], [x for x in added if not inside(x)][:5],
                            [x for x in changed if not inside(x)][:5], argv)))
             break
+    # 'a trashed symlink ... is unlinked': after a plain trash-empty (no DAYS, no injected condition, exit 0) of the standard trash
+    # directories no top-level symlink payload is left in files/ - whatever its target does or does not resolve to
+    if cmd == 'trash-empty' and r.exit == 0 and not case.get('faults') and not any(a.isdigit() or a == '--trash-dir' for a in argv[1:]):
+        for rt_ in roots:
+            if rt_.endswith('/files'):
+                left = [k for k, v in snap1.items() if k.startswith(rt_ + '/') and '/' not in k[len(rt_) + 1:] and v[0] == 'l']
+                if left:
+                    res.append(('C11/link-payload-not-unlinked/%s' % cmd, 'trash-empty (exit 0) left the trashed symlink(s) %r -> %r in place'
+                                % (left[:3], [snap1[k][1] for k in left[:3]])))
+                    break
     kinds = set()
     depth = 0
     for p in removed:
